@@ -28,14 +28,21 @@ CONSTANTS Configs,      \* set of configuration trees of the scope
           OpsOf(_),     \* configuration -> set of describe/register operations of the scope
           UpdatesOf(_), \* kind -> set of updates [u, v, n] tried through a handle
           MaxCalls,     \* describe/register calls per configuration
-          MaxUpdates    \* handle updates per configuration
+          MaxUpdates,   \* handle updates per configuration
+          BuilderCallsOf(_, _), \* (builders, produced layers) -> builder calls of the scope
+          MaxHist,      \* builder calls per history
+          StaleCaseFlag \* witness: FilterLayer keeps its compiled automaton across case_insensitive() (must be rejected)
 
 VARIABLES cfg,      \* configuration tree, or NoCfg before Configure
           regs,     \* probe id -> number of register_* calls that probe has received (names its handles)
           handles,  \* sequence of handles returned to the caller by register_* (mirror: handle trees)
           last,     \* the last public call and what the leaf recorders received for it
-          ncalls, nupd
-vars == <<cfg, regs, handles, last, ncalls, nupd>>
+          ncalls, nupd,
+          blds,     \* the layer builders alive (FilterLayer / PrefixLayer values: stateful, re-usable: layer(&self))
+          made,     \* what the layer() calls produced so far: made[i] = stack over probe i
+          hist      \* the builder calls made so far (history; the law is stated over it)
+bvars == <<blds, made, hist>>
+vars == <<cfg, regs, handles, last, ncalls, nupd, blds, made, hist>>
 
 NoCfg == [t |-> "none"]
 Kinds == {"c", "g", "h"}
@@ -147,18 +154,66 @@ Upd(h, u) ==
 
 -----------------------------------------------------------------------------
 (* ======================= the state machine ======================= *)
-Init == cfg = NoCfg /\ regs = <<>> /\ handles = <<>> /\ last = [o |-> "none"] /\ ncalls = 0 /\ nupd = 0
+Init == /\ cfg = NoCfg /\ regs = <<>> /\ handles = <<>> /\ last = [o |-> "none"] /\ ncalls = 0 /\ nupd = 0
+        /\ blds = <<>> /\ made = <<>> /\ hist = <<>>
 
 Setup(c) ==
   /\ cfg' = c /\ regs' = [p \in ProbeIds(c) |-> 0]
   /\ handles' = <<>> /\ last' = [o |-> "configure"] /\ ncalls' = 0 /\ nupd' = 0
-Configure(c) == cfg.t = "none" /\ Setup(c)        \* building the recorder tree
+Configure(c) == cfg.t = "none" /\ hist = <<>> /\ Setup(c) /\ UNCHANGED bvars       \* building the recorder tree
+
+(* ---------- the layer builders are objects with state ----------
+   FilterLayer: from_patterns(pats) (case sensitive, dfa) | default() (no pattern, case sensitive, no dfa);
+   add_pattern(&mut self, p), case_insensitive(&mut self, x), use_dfa(&mut self, x) and Layer::layer(&self, inner)
+   can be called in any order, any number of times; layer() compiles the automaton from the fields as they are
+   at that moment.  PrefixLayer::new(p); layer(&self, inner) any number of times.  (RouterBuilder::build,
+   FanoutBuilder::add_recorder/build and Stack::push take self by value: no call after the product was taken.)
+   A call is a record [c, b, p, pats, x, onto]; layer(b, onto): onto = 0 wraps a fresh probe, onto = i wraps the
+   i-th product (which is consumed: made[i] becomes the wrapped one). *)
+NoCache == [t |-> "none"]
+PushLayer(n, L) == [n EXCEPT !.layers = Append(@, L)]
+FreshStack(i, L) == [t |-> "stack", base |-> [t |-> "probe", id |-> i], layers |-> <<L>>]
+Logged(c) == hist' = Append(hist, c) /\ UNCHANGED <<cfg, regs, handles, last, ncalls, nupd>>
+BNewFilter(c) ==
+  /\ c.c \in {"new_filter", "new_default"}
+  /\ blds' = Append(blds, [t |-> "filter", pats |-> IF c.c = "new_filter" THEN c.pats ELSE <<>>, ci |-> FALSE,
+                           dfa |-> (c.c = "new_filter"), cache |-> NoCache])
+  /\ UNCHANGED made /\ Logged(c)
+BNewPrefix(c) ==
+  /\ c.c = "new_prefix"
+  /\ blds' = Append(blds, [t |-> "prefix", p |-> c.p])
+  /\ UNCHANGED made /\ Logged(c)
+BAddPattern(c) ==       \* self.patterns.push(pattern)
+  /\ c.c = "add" /\ c.b \in DOMAIN blds /\ blds[c.b].t = "filter"
+  /\ blds' = [blds EXCEPT ![c.b].pats = Append(@, c.p), ![c.b].cache = NoCache]
+  /\ UNCHANGED made /\ Logged(c)
+BCase(c) ==             \* self.case_insensitive = x     (witness: the compiled automaton is NOT dropped)
+  /\ c.c = "ci" /\ c.b \in DOMAIN blds /\ blds[c.b].t = "filter"
+  /\ blds' = [blds EXCEPT ![c.b].ci = c.x, ![c.b].cache = IF StaleCaseFlag THEN @ ELSE NoCache]
+  /\ UNCHANGED made /\ Logged(c)
+BDfa(c) ==              \* self.use_dfa = x
+  /\ c.c = "dfa" /\ c.b \in DOMAIN blds /\ blds[c.b].t = "filter"
+  /\ blds' = [blds EXCEPT ![c.b].dfa = c.x, ![c.b].cache = NoCache]
+  /\ UNCHANGED made /\ Logged(c)
+BLayer(c) ==            \* Layer::layer(&self, inner): Filter { inner, automaton built from the current fields } / Prefix
+  /\ c.c = "layer" /\ c.b \in DOMAIN blds /\ c.onto \in {0} \cup DOMAIN made
+  /\ LET B == blds[c.b]
+         snap == IF B.t = "prefix" THEN [t |-> "prefix", p |-> B.p]
+                 ELSE IF StaleCaseFlag /\ B.cache.t # "none" THEN B.cache
+                 ELSE [t |-> "filter", pats |-> B.pats, ci |-> B.ci, dfa |-> B.dfa]
+     IN /\ made' = IF c.onto = 0 THEN Append(made, FreshStack(Len(made) + 1, snap))
+                   ELSE [made EXCEPT ![c.onto] = PushLayer(@, snap)]
+        /\ blds' = IF B.t = "filter" /\ StaleCaseFlag THEN [blds EXCEPT ![c.b].cache = snap] ELSE blds
+  /\ Logged(c)
+Build(c) == cfg.t = "none" /\ (BNewFilter(c) \/ BNewPrefix(c) \/ BAddPattern(c) \/ BCase(c) \/ BDfa(c) \/ BLayer(c))
+(* the produced layers are put to use: all of them under one fanout (each over its own probe) *)
+Assemble == cfg.t = "none" /\ Len(made) >= 1 /\ Setup([t |-> "fanout", outs |-> made]) /\ UNCHANGED bvars
 
 Describe(op) ==       \* describe_counter / describe_gauge / describe_histogram on the top recorder
   /\ cfg.t # "none" /\ op.o = "describe" /\ ncalls < MaxCalls
   /\ LET r == Run(cfg, op, regs) IN last' = [o |-> "describe", op |-> op, out |-> r.dl]
   /\ ncalls' = ncalls + 1
-  /\ UNCHANGED <<cfg, regs, handles, nupd>>
+  /\ UNCHANGED <<cfg, regs, handles, nupd>> /\ UNCHANGED bvars
 
 Register(op) ==       \* register_counter / register_gauge / register_histogram on the top recorder
   /\ cfg.t # "none" /\ op.o = "register" /\ ncalls < MaxCalls
@@ -167,19 +222,21 @@ Register(op) ==       \* register_counter / register_gauge / register_histogram 
        /\ handles' = Append(handles, [kind |-> op.kind, h |-> r.h])
        /\ regs' = [p \in DOMAIN regs |-> regs[p] + Cardinality({i \in DOMAIN r.dl : r.dl[i].p = p})]
   /\ ncalls' = ncalls + 1
-  /\ UNCHANGED <<cfg, nupd>>
+  /\ UNCHANGED <<cfg, nupd>> /\ UNCHANGED bvars
 
 Update(i, u) ==       \* Counter::increment/absolute, Gauge::increment/decrement/set, Histogram::record/record_many
   /\ cfg.t # "none" /\ i \in DOMAIN handles /\ nupd < MaxUpdates
   /\ last' = [o |-> "update", i |-> i, u |-> u, out |-> Upd(handles[i].h, u)]
   /\ nupd' = nupd + 1
-  /\ UNCHANGED <<cfg, regs, handles, ncalls>>
+  /\ UNCHANGED <<cfg, regs, handles, ncalls>> /\ UNCHANGED bvars
 
 DoConfigure == cfg.t = "none" /\ \E c \in Configs : Configure(c)      \* guard first: Configs is large
 DoDescribe == cfg.t # "none" /\ ncalls < MaxCalls /\ \E op \in OpsOf(cfg) : Describe(op)
 DoRegister == cfg.t # "none" /\ ncalls < MaxCalls /\ \E op \in OpsOf(cfg) : Register(op)
 DoUpdate == nupd < MaxUpdates /\ \E i \in DOMAIN handles : \E u \in UpdatesOf(handles[i].kind) : Update(i, u)
-Next == DoConfigure \/ DoDescribe \/ DoRegister \/ DoUpdate
+DoBuild == cfg.t = "none" /\ Len(hist) < MaxHist /\ \E c \in BuilderCallsOf(blds, made) : Build(c)
+DoAssemble == Assemble
+Next == DoConfigure \/ DoBuild \/ DoAssemble \/ DoDescribe \/ DoRegister \/ DoUpdate
 Spec == Init /\ [][Next]_vars
 
 -----------------------------------------------------------------------------
@@ -287,7 +344,33 @@ InvUpdateOnce ==
         /\ \A t \in DOMAIN tg :
              Cardinality({j \in DOMAIN last.out : last.out[j] = [p |-> tg[t][1], hid |-> tg[t][2], u |-> what, v |-> last.u.v]}) = times
 
+(* Builders: every product of layer() behaves according to the configuration of its builder AT THE MOMENT of that
+   layer() call -- stated over the history of calls alone: patterns = those given at creation plus every add_pattern
+   before the call; case_insensitive / use_dfa = the argument of the latest such call before it (defaults otherwise);
+   products made earlier keep what they had. *)
+NewIdx(h, b) == CHOOSE k \in DOMAIN h : /\ h[k].c \in {"new_filter", "new_default", "new_prefix"}
+                                        /\ Cardinality({j \in 1..k : h[j].c \in {"new_filter", "new_default", "new_prefix"}}) = b
+LawSnap(h, k) ==      \* h[k] is a layer call
+  LET b == h[k].b
+      n == h[NewIdx(h, b)]
+      before(what) == {j \in 1..(k - 1) : h[j].c = what /\ h[j].b = b}
+      latest(what, dflt) == IF before(what) = {} THEN dflt
+                            ELSE h[CHOOSE j \in before(what) : \A j2 \in before(what) : j2 <= j].x
+      added == SetToSortSeq(before("add"), LAMBDA x, y : x < y)
+  IN IF n.c = "new_prefix" THEN [t |-> "prefix", p |-> n.p]
+     ELSE [t |-> "filter",
+           pats |-> (IF n.c = "new_filter" THEN n.pats ELSE <<>>) \o [i \in DOMAIN added |-> h[added[i]].p],
+           ci |-> latest("ci", FALSE), dfa |-> latest("dfa", n.c = "new_filter")]
+LawMade(h) ==
+  LET step(m, k) == IF h[k].c # "layer" THEN m
+                    ELSE IF h[k].onto = 0 THEN Append(m, FreshStack(Len(m) + 1, LawSnap(h, k)))
+                    ELSE [m EXCEPT ![h[k].onto] = PushLayer(@, LawSnap(h, k))]
+  IN FoldLeft(step, <<>>, [k \in DOMAIN h |-> k])
+InvBuilder == /\ made = LawMade(hist)
+              /\ (cfg.t # "none" /\ hist # <<>>) => cfg = [t |-> "fanout", outs |-> LawMade(hist)]
+
 TypeOK ==
+  /\ Len(hist) <= MaxHist
   /\ cfg.t = "none" \/ WellFormed(cfg)
   /\ ncalls \in 0..MaxCalls /\ nupd \in 0..MaxUpdates
   /\ last.o \in {"none", "configure", "describe", "register", "update"}
